@@ -83,13 +83,14 @@ def run(seed):
         res['error'] = 'patch does not apply'
         return res
     order = sorted(sel.keys(), key=lambda p: (p != own, p))
-    base = {pid: baseline(pid, sel[pid]) for pid in order}   # violations already present on the unchanged tree
+    base = {}   # violations already present on the unchanged tree (computed lazily, per property actually run)
     wt = tempfile.mkdtemp(prefix='seedwt.')
     os.rmdir(wt)
     subprocess.run(['git', '-C', REPO, 'worktree', 'add', '--detach', '-q', wt, 'HEAD'], check=True)
     subprocess.run(['git', '-C', wt, 'apply', patch], check=True)
     try:
         for pid in order:
+            base[pid] = baseline(pid, sel[pid])
             rc, viol, names, summary = run_units(pid, sel[pid], wt)
             new = sorted(n for n in names if n not in base[pid])
             res['checks'][pid] = {'exit': rc, 'violations': len(viol), 'new': new[:5], 'baseline': len(base[pid]),
